@@ -14,6 +14,7 @@ pub mod c11;
 pub mod c12;
 pub mod c13;
 pub mod c14;
+pub mod c20;
 
 pub fn dispatch(id: &str, run: &mut Run) -> bool {
     match id {
@@ -31,6 +32,7 @@ pub fn dispatch(id: &str, run: &mut Run) -> bool {
         "C12" => c12::run(run),
         "C13" => c13::run(run),
         "C14" => c14::run(run),
+        "C20" => c20::run(run),
         _ => return false,
     }
     true
